@@ -3,6 +3,7 @@
 mod amf;
 mod chunk;
 mod client;
+mod clock;
 mod msg;
 mod server;
 mod sess;
@@ -51,6 +52,10 @@ fn main() {
             let shard: u64 = a.rest.get(1).map(|s| s.parse().unwrap()).unwrap_or(0);
             let nshards: u64 = a.rest.get(2).map(|s| s.parse().unwrap()).unwrap_or(1);
             let info = client::generate(&kind, &a.tier, a.seed, shard, nshards, &a.out);
+            println!("{}", info);
+        }
+        "clock" => {
+            let info = clock::generate(&a.tier, a.seed, &a.out);
             println!("{}", info);
         }
         x => {
